@@ -177,6 +177,10 @@ impl Check for Identity {
         // the identity-claims registry clauses are shared with C20
         if check.starts_with("claims.") {
             vec!["C15", "C20"]
+        } else if check.starts_with("verify.") {
+            // "both parties pass identity verification" (C04) is decided by this very function: the RWA worlds check that
+            // the token consults the verifier for the right parties, this clause that the verifier's answer is right
+            vec!["C15", "C04"]
         } else {
             vec!["C15"]
         }
